@@ -449,17 +449,77 @@ impl Api for Fq {
 pub type SeekTargets = Vec<Option<(u64, u64)>>;
 
 pub const PATH_PROFILE: &str = "from_path";
+/// like PATH_PROFILE, but the path is a FIFO (what `from_path("/dev/stdin")` or a process
+/// substitution gives): its metadata length is 0 and it delivers the data in pieces
+pub const FIFO_PROFILE: &str = "from_fifo";
+
+/// Feeds `data` into the FIFO at `path` in the pieces given by `script` (each at most 4096 bytes,
+/// i.e. one atomic pipe write). A piece is written only when the pipe is empty, so every read of
+/// the other side sees the rest of exactly one piece: the sequence of read results is a function
+/// of the script and of the reader's requests, not of thread timing. The helper thread is the
+/// only real concurrency in SIM-IO.
+fn fifo_writer(path: std::path::PathBuf, data: Vec<u8>, script: Vec<u32>, done: std::sync::Arc<std::sync::atomic::AtomicBool>) -> std::thread::JoinHandle<()> {
+    use std::io::Write;
+    use std::os::unix::io::AsRawFd;
+    use std::sync::atomic::Ordering;
+    std::thread::spawn(move || {
+        // blocks until the reader has opened its end
+        let mut f = match std::fs::OpenOptions::new().write(true).open(&path) {
+            Ok(f) => f,
+            Err(_) => return,
+        };
+        let pieces: Vec<usize> = script.iter().filter(|x| **x > 0).map(|x| (*x as usize).min(4096)).collect();
+        let mut pos = 0;
+        let mut i = 0;
+        loop {
+            // wait until everything written so far has been taken
+            loop {
+                if done.load(Ordering::SeqCst) {
+                    return;
+                }
+                let mut n: libc::c_int = 0;
+                let rc = unsafe { libc::ioctl(f.as_raw_fd(), libc::FIONREAD, &mut n) };
+                if rc != 0 || n == 0 {
+                    break;
+                }
+                std::thread::yield_now();
+            }
+            if pos >= data.len() {
+                return; // closes the write end: the reader sees the end of the input
+            }
+            let k = if pieces.is_empty() { 4096 } else { pieces[i % pieces.len()] };
+            i += 1;
+            let end = (pos + k).min(data.len());
+            if f.write_all(&data[pos..end]).is_err() {
+                return; // reader gone
+            }
+            pos = end;
+        }
+    })
+}
 
 /// Readers constructed from a file path (`from_path`, `from_path_with_capacity`): the input is
 /// written to a scratch file, read with next() until the end was seen twice; the policy seam is
 /// still ours (set_policy), the byte source is the real file.
 fn drive_path(scn: &ReadScn, cfg: &Cfg) -> RunLog {
-    use std::sync::atomic::{AtomicU64, Ordering};
+    use std::sync::atomic::{AtomicBool, AtomicU64, Ordering};
     static COUNTER: AtomicU64 = AtomicU64::new(0);
     let seam = new_seam(0);
     let mut log = RunLog::default();
     let path = std::env::temp_dir().join(format!("sim-io-{}-{}.tmp", std::process::id(), COUNTER.fetch_add(1, Ordering::Relaxed)));
-    if std::fs::write(&path, &scn.input).is_err() {
+    let fifo = scn.profile == FIFO_PROFILE;
+    let done = std::sync::Arc::new(AtomicBool::new(false));
+    let mut writer = None;
+    if fifo {
+        let c = match std::ffi::CString::new(path.to_string_lossy().as_bytes()) {
+            Ok(c) => c,
+            Err(_) => return log,
+        };
+        if unsafe { libc::mkfifo(c.as_ptr(), 0o600) } != 0 {
+            return log;
+        }
+        writer = Some(fifo_writer(path.clone(), scn.input.clone(), cfg.script.clone(), done.clone()));
+    } else if std::fs::write(&path, &scn.input).is_err() {
         return log;
     }
     let with_cap = cfg.cap != 65536;
@@ -525,6 +585,15 @@ fn drive_path(scn: &ReadScn, cfg: &Cfg) -> RunLog {
         Fmt::Fasta => run!(fasta, fa_obs, fa_err),
         Fmt::Fastq => run!(fastq, fq_obs, fq_err),
     }
+    if let Some(w) = writer {
+        // release a writer that still waits (reader gone early, or it never opened the FIFO)
+        done.store(true, Ordering::SeqCst);
+        {
+            use std::os::unix::fs::OpenOptionsExt;
+            let _ = std::fs::OpenOptions::new().read(true).custom_flags(libc::O_NONBLOCK).open(&path);
+        }
+        let _ = w.join();
+    }
     let _ = std::fs::remove_file(&path);
     let s = seam.borrow();
     log.all_grows = s.all_grows.clone();
@@ -534,7 +603,7 @@ fn drive_path(scn: &ReadScn, cfg: &Cfg) -> RunLog {
 }
 
 pub fn drive(scn: &ReadScn, cfg: &Cfg, targets: &SeekTargets) -> RunLog {
-    if scn.profile == PATH_PROFILE {
+    if scn.profile == PATH_PROFILE || scn.profile == FIFO_PROFILE {
         return drive_path(scn, cfg);
     }
     match scn.fmt {
